@@ -425,6 +425,18 @@ def case_loads(rep):
                     pl.assemble.vector(field)
                     pl2.update(rng.standard_normal((3, d)))
                     pl2.assemble.vector(field)
+                # load items created with whole-number (integer-typed) values, as in a ramp that starts at zero, and given real values later
+                nz = len(bvec())
+                with warnings.catch_warnings():
+                    warnings.simplefilter("ignore")
+                    bg0 = fem.SolidBodyGravity(field, gravity=[0] * nz, density=float(rng.uniform(0.5, 2)))
+                    bf0 = fem.SolidBodyForce(field, values=[0] * (nz - 1) + [-10 if kind != "axisymmetric" else 0], scale=float(rng.uniform(0.5, 2)))
+                    pl0 = fem.PointLoad(field, pts, values=[[0] * d])
+                    for it, val in ((bg0, bvec()), (bf0, bvec()), (pl0, rng.standard_normal((1, d)))):
+                        it.assemble.vector(field)
+                        it.update(val)
+                        it.assemble.vector(field)
+                run.units["loads:integer-typed-start"] += 1
             for kind in ("hex", "planestrain", "axisymmetric"):
                 for closed in (True, False):
                     field, fb, mesh = C01.boundary_field(kind, rng, closed)
@@ -512,7 +524,7 @@ SPEC = {
         "resultant:PointLoad", "resultant:SolidBodyPressure[Field]:open", "resultant:SolidBodyPressure[Field]:closed",
         "resultant:SolidBodyPressure[Field]:closed-zero", "resultant:SolidBodyPressure[FieldPlaneStrain]:open",
         "resultant:SolidBodyPressure[FieldAxisymmetric]:open", "mass:symmetric", "mass:psd", "mass:total",
-        "balance:MultiPointConstraint", "balance:MultiPointContact", "balance:force:MINI", "balance:moment:MINI",
+        "balance:MultiPointConstraint", "balance:MultiPointContact", "loads:integer-typed-start", "balance:force:MINI", "balance:moment:MINI",
         "rim:SolidBodyPressure[Field]:open", "rim:SolidBodyPressure[FieldPlaneStrain]:open", "rim:SolidBodyPressure[FieldAxisymmetric]:open", "rim:SolidBodyPressure[Field]:closed"],
     "rule": ("C01's item/field/mesh matrix with objective materials at smooth random states (|grad u| <= 0.25, det F > 0.05): post-hooks "
              "on item._vector/_mass evaluate force and moment sums, load resultants (body force, gravity, point load incl. 2 pi R "
